@@ -69,15 +69,18 @@ def check_tag_tables(ctx, w, thorough):
     common = env['ENUM_D_TAG_COMMON']
     extra = env['ENUMMAP_EXTRA_D_TAG_MACHINE']
     sol = env['ENUM_D_TAG_SOLARIS']
-    machines = ['EM_386', 'EM_MIPS', 'EM_MIPS_RS3_LE', 'EM_AARCH64', 'EM_X86_64', 'EM_ARM']
+    # the configurations are taken from the tree: every machine that has an extra table, plus representatives without one
+    machines = sorted(set(['EM_386', 'EM_X86_64', 'EM_ARM', 'EM_SPARC', 'EM_SPARCV9', 'EM_SPARC32PLUS']) | set(k for k in extra if isinstance(k, str)))
     if thorough:
         machines = sorted(k for k in env['ENUM_E_MACHINE'] if isinstance(k, str) and k.startswith('EM_'))
     for mach in machines:
         for osabi in ('ELFOSABI_SYSV', 'ELFOSABI_SOLARIS'):
+            # gABI: DT_LOOS..DT_HIOS belongs to the OS ABI, DT_LOPROC..DT_HIPROC to the processor; the two ranges are disjoint, so a
+            # Solaris file of a machine with processor tags has both sets (binutils get_dynamic_type decides each range separately)
             exp = dict(common)
             if mach in extra:
                 exp.update(extra[mach])
-            elif osabi == 'ELFOSABI_SOLARIS':
+            if osabi == 'ELFOSABI_SOLARIS':
                 exp.update(sol)
             elfconf.check_enum_field(ctx, w, 'Elf_Dyn', 'd_tag', None, machine=mach, osabi=osabi, expected_table=exp,
                                      label='@%s,%s' % (mach, osabi))
@@ -329,7 +332,10 @@ def check_symbols(ctx, w):
 
 MUTANTS = [
     ('dyn-tag-unsigned', 'elf/structs.py', "Enum(self.Elf_sxword('d_tag'), **d_tag_dict)", "Enum(self.Elf_xword('d_tag'), **d_tag_dict)", 'L-CONF'),
-    ('dyn-solaris-always', 'elf/structs.py', "elif self.e_ident_osabi == 'ELFOSABI_SOLARIS':", "if self.e_ident_osabi == 'ELFOSABI_SOLARIS':", 'L-ENUM'),
+    ('dyn-solaris-elif', 'elf/structs.py', "        if self.e_ident_osabi == 'ELFOSABI_SOLARIS':\n            d_tag_dict.update(ENUM_D_TAG_SOLARIS)",
+     "        elif self.e_ident_osabi == 'ELFOSABI_SOLARIS':\n            d_tag_dict.update(ENUM_D_TAG_SOLARIS)", 'L-ENUM'),
+    ('dyn-solaris-always', 'elf/structs.py', "if self.e_ident_osabi == 'ELFOSABI_SOLARIS':\n            d_tag_dict.update(ENUM_D_TAG_SOLARIS)",
+     "if True:\n            d_tag_dict.update(ENUM_D_TAG_SOLARIS)", 'L-ENUM'),
     ('dyn-no-machine', 'elf/structs.py', "if self.e_machine in ENUMMAP_EXTRA_D_TAG_MACHINE:", "if False:", 'L-ENUM'),
     ('break-first', DYN, """            if type is None or tag['d_tag'] == type:
                 yield tag
